@@ -146,6 +146,12 @@ def jobs(tier):
     js.append({'name': 'file: tag A / run / tag AB / ...', 'harness': ('props.c01', 'h_conform'),
                'params': {'nlines': 4, 'menu_name': 'small', 'fixed': ['tag A', 'run', 'tag AB'], 'le_choices': (b'\n',), 'inc_len': 1, 'out_len': 1,
                           'final_newline': True}, 'split': 4})
+    # reaching end of file with a tag unused is an error in every mode that processes the file, also when only verifying
+    for sc, pl in ((['tag A'], 0), (['tag A'], 1), (['tag A', 'write'], 0), (['text', 'tag A'], 3), (['tag A', 'write', 'text'], 3)):
+        js.append({'name': 'verify: unused tag at end of file %s pre_out=%d' % ('/'.join(sc), pl), 'harness': ('props.fsprops', 'h_verify'),
+                   'params': {'nlines': len(sc), 'menu_name': 'small', 'fixed': sc, 'pre_out_len': pl}})
+    from . import project
+    js += project.jobs('C14', tier)
     for n in (range(0, 5) if quick else range(0, 7)):
         for le in les:
             for force in (False, True):
@@ -172,6 +178,9 @@ def replay(native, v):
     if d['op'] == 'pp':
         from . import c01
         return c01.replay(native, v)
+    if d['op'] == 'fs':
+        from . import c06
+        return c06.replay(native, v)
     if d['op'] == 'rle':
         s = bytes(model[x] for x in d['s'])
         out = native.ask('replace_line_ending %s %s %d' % (hexs(s), hexs(bytes(d['le'])), 1 if d['force'] else 0))
